@@ -201,6 +201,15 @@ func (b *Balloon) RefreshVersion() error {
 // Add funcion inserts an event hash into the history and hyper trees, creates a snapshot
 // with these insertions results, and returns the snapshot along with certain mutations to
 // do to the persistent storage.
+// RebuildCache reloads the in-memory hyper tree cache from the store. It must be
+// called whenever the store has been written to behind the balloon's back
+// (a state transfer loaded into the database).
+func (b *Balloon) RebuildCache() {
+	b.Lock()
+	defer b.Unlock()
+	b.hyperTree.RebuildCache()
+}
+
 func (b *Balloon) Add(eventDigest hashing.Digest) (*Snapshot, []*storage.Mutation, error) {
 	b.Lock()
 	defer b.Unlock()
